@@ -17,17 +17,19 @@ def share(ctx, total):
     return base + (1 if ctx.shard < rem else 0)
 
 
-def small_exhaustive(ctx, nmax, palettes=(G.PALETTE3,)):
+def small_exhaustive(ctx, nmax, palettes=(G.PALETTE3,), extra=()):
+    """All labelled simple graphs on 1..nmax vertices x all colourings from each palette; `extra` = [(n, palette)] adds further complete
+    sub-spaces (e.g. all 32 768 labelled graphs on 6 vertices with one or two colours)."""
     k = 0
-    for pal in palettes:
-        for n in range(1, nmax + 1):
-            for mol in G.all_small(n, pal):
-                if ctx.mine(k):
-                    for i, a in enumerate(mol.atoms):
-                        a.tag = i
-                        a.x = float(i)
-                    yield mol
-                k += 1
+    spaces = [(n, pal) for pal in palettes for n in range(1, nmax + 1)] + list(extra)
+    for n, pal in spaces:
+        for mol in G.all_small(n, pal):
+            if ctx.mine(k):
+                for i, a in enumerate(mol.atoms):
+                    a.tag = i
+                    a.x = float(i)
+                yield mol
+            k += 1
 
 
 def random_classes(ctx, plan):
